@@ -1,6 +1,10 @@
 CONFIG = dict(
     claimed=True,
-    level_text="Kernel-checked Lean theorems about a byte-level model of the BMP and MRT encoders (BmpCodec::encode, "
+    level_text="PRECISELY: the theorems prove framing, lengths, headers, address-family flags, the one-PDU-per-record "
+               "splitting, table-dump counts / attribute lengths / peer indexes for every input of the domain; that an "
+               "embedded BGP PDU 'parses back to the monitored prefixes / attributes / next hop' is NOT proved here: it is the "
+               "hypothesis embOk of every round-trip theorem (C04's subject) and is checked only by the oracle on the REAL "
+               "bytes with the REAL decoder. Kernel-checked Lean theorems about a byte-level model of the BMP and MRT encoders (BmpCodec::encode, "
                "PerPeerHeader, PeerDownReason, MrtCodec::encode, MpHeader, encode_table_dump incl. Attribute::encode and the "
                "prefix encoder): for EVERY input of the daemon's domain the reference checker - structural readers written "
                "from RFC 7854 / RFC 6396 / RFC 8050 / RFC 4271 - accepts the model's output (master theorem), i.e. common-header "
@@ -51,7 +55,7 @@ CONFIG = dict(
         "Rbgp.Mon2.Props.dump_peer_index_consistent",
         "Rbgp.Mon2.Props.dump_entry_count_consistent",
     ],
-    harness=dict(kind="daemon", test="verif_main_hook::c19::verif_main"),
+    harness=dict(kind="daemon", test="event::verif_event::c19::verif_main"),
     profiles=["debug"],
     n_quick=3000, n_thorough=12000, shards=12,
     nontrivial_re=r"bmp-rm|bmp-up|bmp-down|bmp-init|mrt-mp|td-rib|td-peers|ev-",
@@ -59,8 +63,10 @@ CONFIG = dict(
          "BmpCodec / MrtCodec / encode_table_dump into ONE buffer; ~half of the items are daemon events converted by the REAL "
          "daemon code (live Adj-RIB-In pre/post and Adj-RIB-Out pre/post route monitoring, Loc-RIB, MRT update, peer down "
          "for all 7 SessionDownReason shapes, snapshot flush of 0..6 announce/withdraw changes of colliding prefixes from the "
-         "flushed and from foreign peers, the Loc-RIB Peer Up (loc_rib_peer_up), dump_table of 0..4 peers (sometimes two sessions sharing an address) x 0..3 IPv4 + 0..3 IPv6 prefixes x 1..3 paths, and of 256..305 peers), the rest "
-         "packet-level records: all BMP kinds (route monitoring reach/unreach/EoR, peer up with "
+         "flushed and from foreign peers, the Loc-RIB Peer Up (loc_rib_peer_up), dump_table of 0..4 peers (sometimes two sessions sharing an address) x 0..3 IPv4 + 0..3 IPv6 prefixes x 1..3 paths, and of 256..305 peers), and END-TO-END sessions: a real PeerSession (accept_connection, run_select, on_established, "
+         "finish_session over loopback TCP, rig.rs) on a real TableManager observed by the REAL BmpClient::serve (policy "
+         "all) connected before and/or while the session is up, with and without ADD-PATH, 0..6 announce/withdraw UPDATEs; "
+         "the rest packet-level records (also VPNv4, labeled IPv4, flowspec IPv4 and EVPN NLRI built by the real decoder): all BMP kinds (route monitoring reach/unreach/EoR, peer up with "
          "arbitrary capability sets incl. >255 bytes, peer down with all 5 reasons, initiation TLVs, stats/termination/"
          "mirroring), BGP4MP with and without add-path, TABLE_DUMP_V2 dumps (0..300 peers, 0..15 entries, attribute blocks "
          "0..65536 bytes); IPv4 and IPv6 peers, local addresses and next hops incl. mixed and link-local pairs; Loc-RIB and "
@@ -75,7 +81,8 @@ CONFIG = dict(
                    "reason-1", "reason-2", "reason-3", "reason-4", "reason-5", "tlvs-0", "tlvs-3", "afi-v4", "afi-v6",
                    "mixed-local", "asn2", "peers-0", "peers-few", "peers-many", "ents-0", "ents-few", "ents-many",
                    "rib4", "rib6", "attrlen-0", "attrlen-some", "attrlen-max", "attrlen-over", "(panic)",
-                   "ev-rm", "ev-out", "ev-loc", "ev-mrt", "ev-down", "ev-locup", "ev-flush", "ev-dump", "dpeers-256+", "pre", "post",
+                   "ev-rm", "ev-out", "ev-loc", "ev-mrt", "ev-down", "ev-locup", "ev-flush", "ev-dump", "dpeers-256+",
+                   "ev-live", "early-serve", "late-serve", "lacts-0", "lacts-3", "pre", "post",
                    "sess-none", "sess-hold", "sess-fsm", "sess-admin", "sess-io", "sess-remote", "sess-local",
                    "fmsgs-0", "fmsgs-2", "fmsgs-4", "dpeers-0", "dpeers-1", "dpeers-2", "dpeers-4", "dchg4-0", "dchg4-3",
                    "dchg6-0", "dchg6-3"],
@@ -86,8 +93,11 @@ CONFIG = dict(
                   "model Rbgp/Mon2/DModel.lean of the converters in daemon/src/bmp.rs (adj_rib_in_to_bmp_update, "
                   "adj_rib_out_to_bmp_update, loc_rib_to_bmp, session_down_to_bmp, apply_snapshot, flush_peer_snapshot) and "
                   "daemon/src/mrt.rs (adj_rib_in_to_mrt, dump_table)",
-                  "harness/daemon/c19.rs (+ c19_bmp.rs, c19_mrt.rs inside the modules): the PerPeerHeader::new calls of the "
-                  "BmpClient::serve event loop are transcribed; flush_peer_snapshot's messages are sorted by (family, NLRI, path "
+                  "harness/daemon/c19.rs (included under the event/mod.rs hook; + c19_bmp.rs, c19_mrt.rs inside the modules; "
+                  "rig.rs for sessions): ev-live items EXECUTE on_established -> TableManager -> every arm of BmpClient::serve "
+                  "(Initiation messages are removed after a sanity check, wall-clock timestamps and TCP ports zeroed, the "
+                  "embedded PDUs of the model are read off the real stream: their content is judged by the oracle only); for "
+                  "the single-event items (ev-rm/out/down/flush) the PerPeerHeader::new calls of the serve loop are transcribed; flush_peer_snapshot's messages are sorted by (family, NLRI, path "
                   "id) after checking that every route precedes every End-of-RIB; dump_table runs on a TableManager(2 shards) "
                   "filled by insert_route, its wall-clock timestamps are zeroed by a 30-line TABLE_DUMP_V2 walker",
                   "harness/common/c19_core.rs: the embedded BGP bytes of a case are produced by a stand-alone PeerCodec::new() "
@@ -101,7 +111,7 @@ CONFIG = dict(
                            "Attribute::encode for numeric attributes whose stored flags carry the extended-length bit (put_fixed_len): "
                            "modelled, but not reachable through the public constructors used by the harness",
                            "hash order of flush_peer_snapshot and table order of collect_loc_rib_paths (see level_note)",
-                           "the async plumbing of BmpClient::serve / MrtDumper (TCP, files, subscription): not run"],
+                           "MrtDumper::run_loop (file rotation) is not run; BmpClient::serve is run only with policy `all` and one IPv4 eBGP peer; its Loc-RIB snapshot loop never meets a destination without best path"],
     assumptions=["a monitored UPDATE has at least one NLRI and (unicast/multicast) a next hop; its attributes are in the "
                  "image of Attribute::decode", "peer and local address of a session are of one family (one TCP socket)",
                  "the caller never sets the V bit in PerPeerHeader.flags (daemon: 0, L, O, L|O)",
